@@ -70,7 +70,8 @@ def overapprox(got, rt, withs, obj_known=True):
             c = r_ex[0]
             if c.is_async != exiting.is_async:
                 problems.append("is_exiting entry has is_async=%r for %r" % (c.is_async, exiting))
-            if obj_known and c.obj is not None and c.obj is not ex_obj:
+            if obj_known and c.obj is not ex_obj:
+                # extract() hands the frame below the exit to the analysis, whose first argument is the manager
                 problems.append("is_exiting entry obj %r is not the exiting manager %r" % (c.obj, exiting))
             if got[-1] is not c:
                 problems.append("is_exiting entry is not last")
